@@ -2,15 +2,15 @@ SPECIFICATION Spec
 CONSTANTS
   Acc = {"a1", "a2"}
   Null = "0"
-  Kinds <- K3
+  Kinds <- K2
   BatchSize = 3
   MaxBlocks = 5
-  MaxXfers = 8
+  MaxXfers = 7
   MaxPerBlock = 3
   Replica <- R2
   DiskBackend <- R2
   GCReplica <- R1
-  MTB = 2
+  MTB = 1
   DevMemSeekExclusive = FALSE
   DevGCDropsEdge = FALSE
   DevNoReloadOpenBatch = FALSE
